@@ -1,10 +1,11 @@
 import YaegiVerif.Common.Sexp
 import YaegiVerif.Model.Cfg
 /- Line-protocol front end for C01 (glue).
-   run FUEL STMT   → y=<normal|panic|fuel>:<v1,v2,…> g=<normal|panic|fuel>:<v1,v2,…> n=<instructions>
+   run FUEL (funs BODY…) MAIN   → y=<normal|panic|fuel>:<v1,v2,…> g=<normal|panic|fuel>:<v1,v2,…> n=<instructions>
    EXPR  = (lit n) | (var i) | (bin add|sub|mul|and|or|xor|quo|rem a b) | (neg a) | (cpl a)
    BEXPR = (cmp eq|ne|lt|le|gt|ge a b) | (not a) | (land a b) | (lor a b)
    STMT  = skip | brk | cont | (seq a b) | (assign i e) | (print e) | (ite c t e) | (loop c body post)
+         | (ret e) | (call x g e…)   -- x = f_g(e…); parameters are the callee's variables 0…
          | (switch (c BEXPR STMT fall) …)   -- clauses in order; default = last clause with a true condition -/
 namespace YaegiVerif.Driver.C01
 open YaegiVerif YaegiVerif.Core
@@ -43,6 +44,8 @@ partial def parseStmt : Sexp → Option Stmt
   | .list [.atom "ite", c, t, e] => do some (.ite (← parseB c) (← parseStmt t) (← parseStmt e))
   | .list [.atom "loop", c, b, p] => do some (.loop (← parseB c) (← parseStmt b) (← parseStmt p))
   | .list (.atom "switch" :: cs) => do some (.switch (← parseClauses cs))
+  | .list [.atom "ret", e] => do some (.ret (← parseExpr e))
+  | .list (.atom "call" :: x :: g :: args) => do some (.call (← x.nat?) (← g.nat?) (← args.mapM parseExpr))
   | _ => none
 partial def parseClauses : List Sexp → Option Clauses
   | [] => some .nil
@@ -55,21 +58,22 @@ def showOut (vs : List Val) : String := ",".intercalate (vs.map fun v => toStrin
 
 def handle (args : List Sexp) : String :=
   match args with
-  | [.atom "run", fuel, prog] =>
-    (match fuel.nat?, parseStmt prog with
-     | some f, some p =>
+  | [.atom "run", fuel, .list (.atom "funs" :: fbodies), prog] =>
+    (match fuel.nat?, parseStmt prog, fbodies.mapM parseStmt with
+     | some f, some p, some fs =>
        let st0 : St := { vars := fun _ => 0, out := [] }
-       let code := compileProg p
-       let y := match runFuel code f (.run 0 st0) with
-         | some (.run _ s) => "normal:" ++ showOut s.out
+       let code := compileProg fs p
+       let y := match runFuel code f (.run 0 st0 []) with
+         | some (.run _ s _) => "stuck:" ++ showOut s.out
+         | some (.done s) => "normal:" ++ showOut s.out
          | some (.panicked s) => "panic:" ++ showOut s.out
          | none => "fuel:"
-       let g := match exec f p st0 with
+       let g := match exec fs f p st0 with
          | some (.panic, s) => "panic:" ++ showOut s.out
          | some (_, s) => "normal:" ++ showOut s.out
          | none => "fuel:"
        s!"y={y} g={g} n={code.length}"
-     | _, _ => "bad-op")
+     | _, _, _ => "bad-op")
   | _ => "bad-op"
 
 end YaegiVerif.Driver.C01
